@@ -44,7 +44,13 @@ void teakra_verif_mem_access(std::uint32_t word_address, bool is_write) {
         return;
     if (word_address >= 0x40000) {
         h.last_oob = word_address;
-        throw sim::VerifOOB{word_address, is_write};
+        sim::VerifOOB e{word_address, is_write};
+        if (h.pc_ptr && h.prpage_ptr) {
+            e.pc = *h.pc_ptr;
+            e.prpage = *h.prpage_ptr;
+            e.have_regs = true;
+        }
+        throw e;
     }
     if (++h.accesses > h.budget)
         throw sim::VerifBudget{};
